@@ -48,7 +48,10 @@ CHECKS = {
         ref="3.4, 4 (C05)"),
     'C10': dict(
         text="Decides the error clauses for the text parsers (DMS, Utility::val/fract/nummatch/ParseLine/date, "
-             "GeoCoords::Reset): throw type (X1), outputs committed last (X3), NUL rejected by lookup (X2b).",
+             "GeoCoords::Reset): throw type (X1), outputs committed last (X3), NUL rejected by lookup (X2b); and the "
+             "tools' clause (R-TOOL): in each of the 11 line-oriented tools every may-throw call of the per-line loop "
+             "is inside a try whose std::exception handler emits an ERROR line, sets the non-zero status main returns, "
+             "and a line terminator is written on both paths.",
         note="Closure of format->parse, carry normalisation and half-ulp fidelity are NOT decided.",
         technique="CFG typestate (commit-last) + throw-site audit",
         ref="3.4, 4 (C10)"),
@@ -109,6 +112,17 @@ CHECKS = {
              "A-GEOID-FULLCACHE and A-RAWVAL-BIGENDIAN.",
         technique="backward slicing + path facts on the clang CFG + effect analysis + exact integer table algebra",
         ref="3.6, 3.5 T5"),
+    'C17': dict(
+        text="Decides the interface clause between the constructions and the solvers: in AzimuthalEquidistant, Gnomonic, "
+             "CassiniSoldner and Intersect every output of a solver or line call that is consumed (stored to a result, "
+             "returned, branched on, stored in a member) was requested by the mask that call passes - forwarding "
+             "overloads are resolved to their constant masks - and, for lines built in place (Gnomonic::Reverse's line, "
+             "CassiniSoldner's _meridian and perp), lies within the capabilities the line was constructed with.",
+        note="NARROW: projection geometry, intersection optimality/completeness, nearest-neighbour search and save/load are "
+             "NOT decided. Lines received as parameters are assumed to have the documented capabilities (A-CAPS-PARAM). "
+             "Four locals of Gnomonic::Reverse are audited (loop runs at least once).",
+        technique="licence/taint dataflow with bit-level masks and line-capability typestate over the clang CFG",
+        ref="3.2 M4/M5, 4 (C17)"),
     'C01': dict(
         text="Decides one structural necessary condition of the accuracy statement: the Maxima-generated series "
              "tables A1, C1, C1', A3, C3 of the active order agree, monomial by monomial as exact rationals, with the "
